@@ -415,6 +415,17 @@ func init() {
 	I["(*sync.Mutex).Lock"] = lock
 	I["(*sync.Mutex).Unlock"] = unlock
 	I["(*sync.Mutex).TryLock"] = tryLock
+	I["(*sync.RWMutex).TryLock"] = tryLock
+	I["(*sync.RWMutex).TryRLock"] = func(th *Thread, fn *ssa.Function, args []Value) Value {
+		st := lockOf(th, args[0].(*Value))
+		th.schedPoint("TryRLock")
+		if !st.writer {
+			st.readers++
+			th.hbAcquire(st.vc)
+			return th.m.ts.Bool(true)
+		}
+		return th.m.ts.Bool(false)
+	}
 	I["(*sync.RWMutex).Lock"] = lock
 	I["(*sync.RWMutex).Unlock"] = unlock
 	I["(*sync.RWMutex).RLock"] = func(th *Thread, fn *ssa.Function, args []Value) Value {
